@@ -17,7 +17,7 @@ Lines:
   <inst> qry <coll> <fields|-> <filt> <sort> <limit|->
   R<k>  qryg <coll> <fields|-> <filt> <sort>       full sorted result with tie-group numbers
   <inst> reload
-  enc <value> | dec <S text>
+  enc <value> | dec <S text> | idx <S id>     (idx: MongoDriver._id_to_db / _id_from_db)
 Replies: ok i <S> | ok n <k> | ok b T|F | ok r <n> <record>… | ok g <n> (<group> <record>)… | ok u | ok v <value> |
   err <enum> | bad-op
 -/
@@ -253,6 +253,14 @@ def dstep (d : DState) : List String → DState × String
     match parseV ws with
     | some (v, []) => (d, "ok v S" ++ fmtCps (encodeVal d.fx (mkFt d) v))
     | _ => (d, "bad-op")
+  | ["idx", w] =>                      -- Mongo identifier mapping: kind, bytes, and the id read back
+    match parseS w with
+    | some i =>
+      (d, match Mongo.idToDb i with
+        | some (.oid b) => "ok o " ++ fmtCps b ++ " S" ++ fmtCps (Mongo.idFromDb (.oid b))
+        | some (.str t) => "ok s - S" ++ fmtCps (Mongo.idFromDb (.str t))
+        | none => "err invalid-id")
+    | none => (d, "bad-op")
   | ["dec", w] =>
     match parseS w with
     | some t => (d, match decodeVal (mkFt d) t with | some v => "ok v " ++ fmtV v | none => "err decode")
